@@ -98,14 +98,22 @@ Prec(g, i, j) == LET si == g.rules[i].ct # "D"  sj == g.rules[j].ct # "D" IN
                  (si /\ ~sj) \/ (si = sj /\ i > j)
 Chosen(g, now, c, sup) == LET S == SatIds(g, now, c, sup) IN
                           CHOOSE i \in S : \A j \in S \ {i} : Prec(g, i, j)
-Covered(g, ev) == \A j \in DOMAIN ev.op.ctxs : SatIds(g, ev.now, ev.op.ctxs[j], ev.op.sigs) # {}
-ChosenAt(g, ev, j) == Chosen(g, ev.now, ev.op.ctxs[j], ev.op.sigs)
-NoRefusal(g, ev) == \A j \in DOMAIN ev.op.ctxs : \A p \in g.rules[ChosenAt(g, ev, j)].pols : ~PolCfg(g, p).rf
 
-\* number of enforcements of policy p the property prescribes (rule r, context c; or in total)
-ExpEnf(g, ev, p, r, c) == Cardinality({j \in DOMAIN ev.op.ctxs :
-                              ev.op.ctxs[j] = c /\ ChosenAt(g, ev, j) = r /\ p \in g.rules[r].pols})
-ExpEnfAll(g, ev, p) == Cardinality({j \in DOMAIN ev.op.ctxs : p \in g.rules[ChosenAt(g, ev, j)].pols})
+\* what the property derives for a check event, computed once per event:
+\*   ch[j]  the rule the property designates for context j (-1: no live rule of the type, or Default, is satisfied)
+\*   cov    every context has one
+Derived(g, ev) ==
+  IF ev.op.op # "check" THEN [cov |-> FALSE, ch |-> <<>>]
+  ELSE LET ch == [j \in DOMAIN ev.op.ctxs |->
+                     IF SatIds(g, ev.now, ev.op.ctxs[j], ev.op.sigs) = {} THEN -1
+                     ELSE Chosen(g, ev.now, ev.op.ctxs[j], ev.op.sigs)]
+       IN [cov |-> \A j \in DOMAIN ch : ch[j] # -1, ch |-> ch]
+\* no enforcement hook of a designated rule refuses
+NoRefusal(g, d) == \A j \in DOMAIN d.ch : \A p \in g.rules[d.ch[j]].pols : ~PolCfg(g, p).rf
+
+\* number of enforcements of policy p the property prescribes (for rule r and context c; or in total)
+ExpEnf(g, ev, d, p, r, c) == Cardinality({j \in DOMAIN d.ch : ev.op.ctxs[j] = c /\ d.ch[j] = r /\ p \in g.rules[r].pols})
+ExpEnfAll(g, d, p) == Cardinality({j \in DOMAIN d.ch : p \in g.rules[d.ch[j]].pols})
 LogEnf(ev, p, r, c) == Cardinality({j \in DOMAIN ev.log.enf :
                               ev.log.enf[j].p = p /\ ev.log.enf[j].rule = r /\ ev.log.enf[j].ctx = c})
 
@@ -177,41 +185,41 @@ Monitors == {"C03_sound", "C03_precedence", "C03_signers_scope", "C03_enforce_lo
 PropOf(m) == IF m \in {"C20_rules_query", "C20_rules_refuse", "C20_rules_capacity", "C20_rules_fresh_id"}
              THEN "C20" ELSE "C03"
 
-Ante(m, g, ev) ==
+\* every monitor is  Ante => Cons ; d = Derived(g, ev)
+AnteD(m, g, ev, d) ==
   LET o == ev.op  ok == ev.res = "ok"  chk == o.op = "check" IN
   CASE m = "C03_sound"          -> chk /\ ok
-    [] m = "C03_precedence"     -> chk /\ ok /\ ev.log.enf # <<>> /\ Covered(g, ev)
+    [] m = "C03_precedence"     -> chk /\ ok /\ ev.log.enf # <<>> /\ d.cov
     [] m = "C03_signers_scope"  -> chk /\ (ev.log.can # {} \/ ev.log.enf # <<>>)
-    [] m = "C03_enforce_log"    -> chk /\ (ok => Covered(g, ev))
-    [] m = "C03_complete"       -> chk /\ o.bad = {} /\ Covered(g, ev) /\ NoRefusal(g, ev)
+    [] m = "C03_enforce_log"    -> chk /\ (ok => d.cov)
+    [] m = "C03_complete"       -> chk /\ o.bad = {} /\ d.cov /\ NoRefusal(g, d)
     [] m = "C20_rules_query"    -> TRUE
-    [] m = "C20_rules_refuse"   -> MustRefuse(g, o)
-    [] m = "C20_rules_capacity" -> Over(g, o) \/ AtLimit(g, o, ev.now)
+    [] m = "C20_rules_refuse"   -> ~chk /\ MustRefuse(g, o)
+    [] m = "C20_rules_capacity" -> ~chk /\ (Over(g, o) \/ AtLimit(g, o, ev.now))
     [] m = "C20_rules_fresh_id" -> IsAdd(o) /\ ok
 
-Cons(m, g, ev) ==
-  LET o == ev.op  ok == ev.res = "ok"  now == ev.now IN
+ConsD(m, g, ev, d) ==
+  LET o == ev.op  ok == ev.res = "ok" IN
   CASE m = "C03_sound" ->
          \* every supplied signature verifies (the external ones through the verifier contract) ...
          /\ o.bad = {}
          /\ \A s \in o.sigs : ~IsDelegated(s) => [s |-> s, ok |-> TRUE] \in ev.log.ver
          \* ... and every context is covered by a live rule of its type (or Default) that is satisfied
-         /\ Covered(g, ev)
+         /\ d.cov
     [] m = "C03_precedence" ->
-         \A j \in DOMAIN ev.log.enf : LET c == ev.log.enf[j] IN
-            /\ c.ctx \in ToSet(o.ctxs)
-            /\ c.rule = Chosen(g, now, c.ctx, o.sigs)
+         \* the rule handed to the enforcement hooks is the one the precedence order designates
+         \A q \in DOMAIN ev.log.enf : LET c == ev.log.enf[q] IN
+            \E j \in DOMAIN o.ctxs : o.ctxs[j] = c.ctx /\ d.ch[j] = c.rule
     [] m = "C03_signers_scope" ->
          \A c \in ev.log.can \cup ToSet(ev.log.enf) :
             Has(g, c.rule) => c.sg \subseteq (g.rules[c.rule].signers \cap o.sigs)
     [] m = "C03_enforce_log" ->
          IF ok
-         THEN LET T == {<<ev.log.enf[j].p, ev.log.enf[j].rule, ev.log.enf[j].ctx>> : j \in DOMAIN ev.log.enf}
-                        \cup UNION {{<<p, ChosenAt(g, ev, j), o.ctxs[j]>> : p \in g.rules[ChosenAt(g, ev, j)].pols}
-                                    : j \in DOMAIN o.ctxs}
-              IN /\ \A t \in T : LogEnf(ev, t[1], t[2], t[3]) = ExpEnf(g, ev, t[1], t[2], t[3])
-                 /\ \A j \in DOMAIN ev.log.enf : ev.log.enf[j].ok
-                 /\ \A p \in DOMAIN ev.log.commit : ev.log.commit[p] = ExpEnfAll(g, ev, p)
+         THEN LET T == {<<ev.log.enf[q].p, ev.log.enf[q].rule, ev.log.enf[q].ctx>> : q \in DOMAIN ev.log.enf}
+                        \cup UNION {{<<p, d.ch[j], o.ctxs[j]>> : p \in g.rules[d.ch[j]].pols} : j \in DOMAIN o.ctxs}
+              IN /\ \A t \in T : LogEnf(ev, t[1], t[2], t[3]) = ExpEnf(g, ev, d, t[1], t[2], t[3])
+                 /\ \A q \in DOMAIN ev.log.enf : ev.log.enf[q].ok
+                 /\ \A p \in DOMAIN ev.log.commit : ev.log.commit[p] = ExpEnfAll(g, d, p)
          ELSE \A p \in DOMAIN ev.log.commit : ev.log.commit[p] = 0
     [] m = "C03_complete"       -> ok
     [] m = "C20_rules_query"    -> QueryOk(GNext(g, ev).rules, ev.obs)
@@ -219,9 +227,13 @@ Cons(m, g, ev) ==
     [] m = "C20_rules_capacity" -> IF Over(g, o) THEN ~ok ELSE ok
     [] m = "C20_rules_fresh_id" -> ev.ret > g.maxid /\ ev.ret >= 0
 
+Ante(m, g, ev) == AnteD(m, g, ev, Derived(g, ev))
+Cons(m, g, ev) == ConsD(m, g, ev, Derived(g, ev))
 Holds(m, g, ev) == Ante(m, g, ev) => Cons(m, g, ev)
 
 Key(m, g, ev) == "other"
 
-Failing(g, ev) == {m \in Monitors : ~Holds(m, g, ev)}
+Failing(g, ev) == LET d == Derived(g, ev) IN {m \in Monitors : AnteD(m, g, ev, d) /\ ~ConsD(m, g, ev, d)}
+\* the monitors whose antecedent holds (counted by the trace checker)
+Engaged(g, ev) == LET d == Derived(g, ev) IN {m \in Monitors : AnteD(m, g, ev, d)}
 =============================================================================
